@@ -48,18 +48,20 @@ class Tournament(Case):
     outside = ("faithfulness / independence of the real clone() (C01)",)
     site = "TournamentSelection.select"
 
-    def __init__(self, hist, k, window, elitism, new_size=None, sym_index=False):
+    def __init__(self, hist, k, window, elitism, new_size=None, sym_index=False, concrete_draws=False):
+        self.concrete_draws = concrete_draws
         self.sym_index = sym_index
         self.hist, self.k, self.window, self.elitism = tuple(hist), k, window, elitism
         self.P = len(hist)
         self.new_size = new_size or self.P
-        self.name = f"tournament-pop{self.P}-hist{'.'.join(map(str, hist))}-k{k}-w{window}-{'elite' if elitism else 'noelite'}-new{self.new_size}" + ("-symidx" if sym_index else "")
+        self.name = f"tournament-pop{self.P}-hist{'.'.join(map(str, hist))}-k{k}-w{window}-{'elite' if elitism else 'noelite'}-new{self.new_size}" + ("-symidx" if sym_index else "") + ("-draws-decided-up-front" if concrete_draws else "")
         self.bounds = {"population": self.P, "new_population": self.new_size, "tournament_size": k, "eval_loop": window, "elitism": elitism,
                        "history_lengths": list(hist),
                        "symbolic": "all fitness entries, every randint draw" + (", agent indices" if sym_index else "; agent indices fixed, distinct, unordered")}
 
     def run(self, v):
         P, k, w = self.P, self.k, self.window
+        case = self
         log = []
         fit = [[v.real(f"f{i}_{j}") for j in range(n)] for i, n in enumerate(self.hist)]
         if self.sym_index:
@@ -84,9 +86,9 @@ class Tournament(Case):
                 for j in range(n):
                     d = v.int("draw")
                     v.assume(conj(d >= low, d < high))
-                    out[j] = d
+                    out[j] = d.__index__() if (case.concrete_draws and isinstance(d, Sym)) else d      # decided by forking: usable as a numpy index
                 draws.append(list(out))
-                return out if v.mode != "real" else out.astype(np.int64)
+                return out if (v.mode != "real" and not case.concrete_draws) else out.astype(np.int64)
 
         ts = TournamentSelection(k, self.elitism, self.new_size, w)
         with patched((t_mod, "np", ShimNumpy({"random": Rnd}))):
@@ -146,7 +148,9 @@ def cases(tier):
     # paths = orderings of the mean fitnesses x P^(draws) (x orderings of symbolic indices): keep draws <= 4 in the quick tier
     cs = [Tournament((2, 2, 2), 2, 2, True), Tournament((1, 3, 2), 2, 2, False, new_size=2),
           Tournament((2, 1), 2, 3, True, new_size=3, sym_index=True), Tournament((3,), 2, 2, True, new_size=2, sym_index=True),
-          Tournament((2, 2, 2), 3, 1, True, new_size=2), Tournament((1, 1), 1, 1, False, new_size=3, sym_index=True)]
+          Tournament((2, 2, 2), 3, 1, True, new_size=2), Tournament((1, 1), 1, 1, False, new_size=3, sym_index=True),
+          # the draws decided up front (an implementation may use them as numpy indices)
+          Tournament((1, 2), 2, 1, True, new_size=2, concrete_draws=True), Tournament((1, 1, 2), 2, 2, False, new_size=1, concrete_draws=True)]
     if tier == "thorough":
         cs += [Tournament((2, 3, 1, 2), 2, 2, True, new_size=3), Tournament((3, 3, 3), 2, 3, False, new_size=3),
                Tournament((1, 2, 3), 3, 2, True, new_size=3), Tournament((2, 2, 2), 2, 2, True, sym_index=True)]
